@@ -401,6 +401,8 @@ theorem inv_insert (hI : NodeInv I) (hasDb : Bool) (s : Store) (value : WN) (hv 
             · exact hval _ _ _ _ _
             · exact hval _ _ _ _ _
           · exact hself _
+        · exact hself _
+        · exact hself _
         · exact hvalue _
     | cons k ks =>
       cases n with
@@ -441,6 +443,8 @@ theorem inv_insert (hI : NodeInv I) (hasDb : Bool) (s : Store) (value : WN) (hv 
             fun i1 i2 k1 k2 w => hI.routing_mk _ _ _ _
               (inv_upd i2 (inv_upd i1 (fun _ => ⟨by simp [noCh], hI.nil⟩) (inv_mkShort hI hc1 hc2 hc3))
                 (inv_mkShort hI hvn hve hv))
+          split
+          · exact ⟨hI.short_mk _ _ _ _ hc1 hc2 hc3, fun _ => rfl, fun _ => by simp⟩
           split
           · split
             · exact ⟨hb _ _ _ _ _, fun _ => rfl, fun _ => by simp⟩
@@ -819,7 +823,8 @@ theorem upDirty_commit (collapse : Int) (t : WT) (hu : UpDirty t.root) :
   simp only at hu
   by_cases hd : root.dirty = false
   · have e : (commit H ⟨root, hasDb, store, oldRoot, deleted, tempDeleted, pending, created⟩ collapse).1.root = root := by
-      simp [commit, hd]
+      simp only [commit, hd, Bool.not_false, if_true]
+      split <;> rfl
     rw [e]; exact ⟨hd, hu⟩
   · have hd' : root.dirty = true := by simpa using hd
     cases root with
